@@ -889,10 +889,10 @@ func TestVerifChannelMachine(t *testing.T) {
 
 	// ---- code -> spec: seeded random drivers, traces validated by TLC ----
 	rng := env.Rand()
-	for tr := 0; tr < env.Pick(150, 2500) && rep.Violations() == 0; tr++ {
+	for tr := 0; tr < env.Pick(80, 2500) && rep.Violations() == 0; tr++ {
 		driveMachine(rep, rec, rng, 25+rng.Intn(40))
 	}
-	for tr := 0; tr < env.Pick(40, 500) && rep.Violations() == 0; tr++ {
+	for tr := 0; tr < env.Pick(25, 400) && rep.Violations() == 0; tr++ {
 		driveReactor(rep, rec, rng, 20+rng.Intn(25))
 	}
 	if err := rec.Close(); err != nil {
